@@ -7,7 +7,11 @@ import (
 	"runtime"
 	"runtime/debug"
 	"sort"
+	"strings"
 	"sync"
+	"time"
+
+	sdk "github.com/cosmos/cosmos-sdk/types"
 
 	service "github.com/irismod/service"
 	st "github.com/irismod/service/types"
@@ -318,3 +322,90 @@ func genesisPost(e *Engine, ev *RunEvidence) []Found {
 type oracleC19 struct{ baseOracle }
 
 func (oracleC19) Prop() string { return "C19" }
+
+// paramGrid: every parameter value the parameter store accepts (what a parameter-change proposal can set) must
+// survive the export: the exported genesis validates, is written and read back as JSON, and re-imports identically.
+func paramGrid(tier string) (*PureEvidence, []Found) {
+	ev := &PureEvidence{Counters: map[string]int64{}, Rule: "per module parameter the boundary values of its type; each value the parameter store accepts (per-field validators, as for a parameter-change proposal) is put in force on a chain with definitions, bindings and a running context, which is then taken as an export point; distinct = accepted (parameter, value) pairs"}
+	found := map[string]*Found{}
+	rig := NewRig(RigConfig{})
+	sc := scLife(defaultParams(), []Template{tRep2}, AlphaOpts{}, 1, 1, 1)
+	base := rig.Genesis(sc.Params, sc.Funds, sc.Extra)
+	s := base
+	for _, a := range append(append([]Action{}, sc.Setup...), sc.actCall(0), actE()) {
+		post, res := Exec(rig, sc, s, a)
+		if !res.OK() {
+			panic("paramGrid setup failed: " + a.Name)
+		}
+		s = post
+	}
+	type pcase struct {
+		name string
+		set  func(p *st.Params)
+	}
+	var cases []pcase
+	dec := func(x string) sdk.Dec { return sdk.MustNewDecFromStr(x) }
+	for _, v := range []int64{-1, 0, 1, 2, 1<<63 - 1} {
+		v := v
+		cases = append(cases, pcase{fmt.Sprintf("MaxRequestTimeout=%d", v), func(p *st.Params) { p.MaxRequestTimeout = v }})
+		cases = append(cases, pcase{fmt.Sprintf("MinDepositMultiple=%d", v), func(p *st.Params) { p.MinDepositMultiple = v }})
+	}
+	for _, v := range []string{"-0.1", "0", "0.000000000000000001", "0.5", "0.999999999999999999", "1", "1.000000000000000001", "2"} {
+		v := v
+		cases = append(cases, pcase{"ServiceFeeTax=" + v, func(p *st.Params) { p.ServiceFeeTax = dec(v) }})
+		cases = append(cases, pcase{"SlashFraction=" + v, func(p *st.Params) { p.SlashFraction = dec(v) }})
+	}
+	for _, v := range []time.Duration{-1, 0, 1, time.Second, 1<<63 - 1} {
+		v := v
+		cases = append(cases, pcase{fmt.Sprintf("ComplaintRetrospect=%d", v), func(p *st.Params) { p.ComplaintRetrospect = v }})
+		cases = append(cases, pcase{fmt.Sprintf("ArbitrationTimeLimit=%d", v), func(p *st.Params) { p.ArbitrationTimeLimit = v }})
+	}
+	for _, v := range []uint64{0, 1, 4000, 1<<64 - 1} {
+		v := v
+		cases = append(cases, pcase{fmt.Sprintf("TxSizeLimit=%d", v), func(p *st.Params) { p.TxSizeLimit = v }})
+	}
+	for _, v := range []string{"", "s", "ab", "abc", "stake", "Stake", "1ab", "a234567890123456", "a2345678901234567", "sta ke"} {
+		v := v
+		cases = append(cases, pcase{"BaseDenom=" + v, func(p *st.Params) { p.BaseDenom = v }})
+	}
+	for i, v := range []sdk.Coins{nil, {}, coins(1), hugeCoins(), {sdk.Coin{Denom: denom, Amount: sdk.ZeroInt()}}, sdk.NewCoins(sdk.NewInt64Coin("foo", 10), sdk.NewInt64Coin(denom, 10))} {
+		v := v
+		cases = append(cases, pcase{fmt.Sprintf("MinDeposit=#%d(%s)", i, v.String()), func(p *st.Params) { p.MinDeposit = v }})
+	}
+	for _, c := range cases {
+		ev.Evaluations++
+		p := sc.Params.Params()
+		c.set(&p)
+		w := rig.Restore(s)
+		if pn, _ := tryPanic(func() { rig.sk.SetParams(w.ctx, p) }); pn != "" {
+			ev.Counters["refused-by-the-parameter-store"]++
+			continue
+		}
+		ev.Distinct++
+		ev.Counters["accepted-and-exported"]++
+		s2 := &State{Height: s.Height, Time: s.Time, Stores: w.Flush()}
+		var r c19Result
+		if pn, trc := tryPanic(func() { r = exportPoint(rig, sc, s2, base) }); pn != "" {
+			r.viols = append(r.viols, viol("C19", "export-with-accepted-parameters-does-not-panic", "export", panicClass(pn, trc), "export panics: "+pn+" at "+trc))
+		}
+		for _, v := range r.viols {
+			sig := "C19|" + v.Clause + "|pure|" + c.name + "/" + v.Sig[strings.LastIndex(v.Sig, "|")+1:]
+			if f, ok := found[sig]; ok {
+				f.Count++
+				continue
+			}
+			vv := v
+			vv.Sig = sig
+			vv.Detail = "with parameter " + c.name + " in force: " + v.Detail
+			found[sig] = &Found{Violation: vv, Trace: []string{"param-grid", c.name}, Count: 1}
+		}
+	}
+	if len(ev.Samples) < 2 {
+		ev.Samples = append(ev.Samples, map[string]interface{}{"parameter": "SlashFraction=1", "export": "validated, JSON round trip, re-import compared"})
+	}
+	var out []Found
+	for _, f := range found {
+		out = append(out, *f)
+	}
+	return ev, out
+}
